@@ -287,3 +287,5 @@ def u_set_render_method(ctx):
                             eng.oblige("unset-makes-the-level-follow-the-next-one(own-override-removed)", s, And(kind != "raise", ok, klass_same), kind="post")
                     obs += eng.obligations
     return obs
+from .render_kitty import *    # noqa: F401,F403,E402  (the method a render actually uses: per-call override, any letter case)
+from .render_iterm2 import *   # noqa: F401,F403,E402
